@@ -14,6 +14,7 @@ AtomAst(n) == CASE n = "A" -> [k |-> "atom", col |-> "a", op |-> "eq", v |-> I(1
                 [] n = "B" -> [k |-> "atom", col |-> "b", op |-> "eq", v |-> I(1)]
                 [] n = "C" -> [k |-> "atom", col |-> "s", op |-> "eq", v |-> S("ab")]
 Pairs == {<<"A", "B">>, <<"B", "C">>, <<"A", "C">>}
+Third(x, y) == CHOOSE n \in AtomNames : n \notin {x, y}
 
 \* flat unit: [conn, form, shape, x, y, sep]
 F(conn, form, shape, x, y, sep) == [conn |-> conn, form |-> form, shape |-> shape, x |-> x, y |-> y, sep |-> sep]
@@ -27,6 +28,8 @@ Shapes(conn) ==
   \cup {F(conn, f, "not", x, "-", "sp") : f \in (IF Rich THEN {"raw", "expr", "group"} ELSE {"raw"}), x \in AtomNames}
   \* a sub-builder whose only condition is one clause expression (clause.Or(x, y) / clause.And(x, y))
   \cup {F(conn, "group", sh, p[1], p[2], "sp") : sh \in {"orx", "andx"}, p \in Pairs}
+  \* one call with several condition arguments: Where(db.Where(x).Or(y), clause.Eq{z})  -- (x OR y) AND z
+  \cup {F(conn, "group", "args", p[1], p[2], "sp") : p \in Pairs}
 EmptyShapes(conn) == {F(conn, "empty", e, "-", "-", "sp") : e \in {"str", "map", "struct", "slice"}}
 
 Units(first) ==
@@ -48,6 +51,10 @@ UnitOf(f) ==
                                        [conn |-> "O", form |-> "raw", ast |-> AtomAst(f.y), sub |-> <<>>]>>
                [] f.shape = "orx" -> <<[conn |-> "W", form |-> "expr", ast |-> [k |-> "or", xs |-> <<AtomAst(f.x), AtomAst(f.y)>>], sub |-> <<>>]>>
                [] f.shape = "andx" -> <<[conn |-> "W", form |-> "expr", ast |-> [k |-> "and", xs |-> <<AtomAst(f.x), AtomAst(f.y)>>], sub |-> <<>>]>>
+               [] f.shape = "args" -> <<[conn |-> "W", form |-> "group", ast |-> [k |-> "none"],
+                                         sub |-> <<[conn |-> "W", form |-> "raw", ast |-> AtomAst(f.x), sub |-> <<>>],
+                                                   [conn |-> "O", form |-> "raw", ast |-> AtomAst(f.y), sub |-> <<>>]>>],
+                                        [conn |-> "W", form |-> "expr", ast |-> AtomAst(Third(f.x, f.y)), sub |-> <<>>]>>
                [] f.shape = "not" -> <<[conn |-> "N", form |-> "raw", ast |-> AtomAst(f.x), sub |-> <<>>]>>]
   ELSE [conn |-> f.conn, form |-> f.form, sub |-> <<>>,
         ast |-> CASE f.shape = "atom" -> AtomAst(f.x)
